@@ -257,7 +257,7 @@ func TestC20AcceptanceNoWrap(t *testing.T) {
 // server, and checks T + P + 1 + W < 4032 with P the production rotation-check
 // period in timeslots.
 func TestC20WindowSafety(t *testing.T) {
-	ev.Rule("C20(d): generated gaps g (dense within 5 of the trigger, random elsewhere): clock = offset+g, one granted step of the rotation loop, observe whether the window moved -> effective trigger T; generated distances d -> effective half-width W; P = ceil(production ReportMigrationFrequency / 300 s) from the prod-build job; check T+P+1+W < 4032; non-trivial = gap within 5 of T or distance within 5 of W")
+	ev.Rule("C20(d): generated gaps g (dense within 5 of the trigger, random elsewhere): clock = offset+g, one granted step of the rotation loop, observe whether the window moved -> effective trigger T; generated distances d -> effective half-width W; P = ceil(production ReportMigrationFrequency / 300 s) from the prod-build job; check T+P+1+W < 4032, and at the other end of the window that neither the loop nor the catch-up at start-up (measured by restarting at drawn gaps) rotates while a report the clock rule still admits belongs to the closing week (smallest rotating gap - W >= 2016); non-trivial = gap within 5 of T or of 2016+W, or distance within 5 of W")
 	server.VerifSetStepping(true)
 	defer server.VerifSetStepping(false)
 	glow.SetCurrentTimeslot(0)
@@ -380,5 +380,54 @@ func TestC20WindowSafety(t *testing.T) {
 	}
 	if W != 432 {
 		t.Fatalf("C20: acceptance half-width measured %d, the protocol documents 432 (72 h)", W)
+	}
+	// The other end: a rotation must not take place while a report the clock
+	// rule still admits (down to now-W) belongs to the week that is closed -
+	// after a rotation at gap g the window starts at offset+2016, so g-W >= 2016.
+	if minRot-W < 2016 {
+		t.Fatalf("C20: window not safe at its start: the loop rotates at now-offset = %d, reports down to now-%d are still admitted and would lie before the new window", minRot, W)
+	}
+	// The same for the catch-up at start-up: the server is restarted at drawn
+	// gaps and the smallest gap at which a start rotates is measured.
+	maxNoRotS, minRotS := int64(-1), int64(1<<40)
+	startGaps := []int64{0, 2015, 2016, 2017, 2447, 2448, 2449, 3199, 3200, 3201, 3999, 4000, 4001, 4031}
+	startGaps = append(startGaps, rapid.SliceOfN(rapid.Int64Range(2016, 4031), pick(6, 40), pick(6, 40)).Example(int(seedFromEnv())+1)...)
+	for _, g := range startGaps {
+		off := int64(s.S.VerifSnapshot().Offset)
+		glow.SetCurrentTimeslot(uint32(off))
+		if err := s.Close(); err != nil {
+			t.Fatalf("C20: close: %v", err)
+		}
+		glow.SetCurrentTimeslot(uint32(off + g))
+		if s, err = world.StartServer(dir); err != nil {
+			t.Fatalf("C20: restart at now-offset = %d: %v", g, err)
+		}
+		ev.Eval(1)
+		switch off2 := int64(s.S.VerifSnapshot().Offset); off2 - off {
+		case 0:
+			if g > maxNoRotS {
+				maxNoRotS = g
+			}
+		case 2016:
+			if g < minRotS {
+				minRotS = g
+			}
+		default:
+			t.Fatalf("C20: a start at now-offset = %d moved the window by %d", g, off2-off)
+		}
+		if g >= 2016+W-5 && g <= 2016+W+5 {
+			ev.NonTrivial(fmt.Sprintf("c20|startgap|%d", g))
+		}
+	}
+	if minRotS <= maxNoRotS {
+		t.Fatalf("C20: start-up catch-up is not a threshold: largest gap without rotation %d, smallest with rotation %d", maxNoRotS, minRotS)
+	}
+	ev.Set("c20_startup_rotates_from", minRotS)
+	if minRotS-W < 2016 {
+		t.Fatalf("C20: window not safe at its start: a server started at now-offset = %d rotates, reports down to now-%d are still admitted and would lie before the new window", minRotS, W)
+	}
+	if maxNoRotS+P+1+W >= 4032+2016 {
+		// a start that does not catch up leaves the loop to do it; the first check comes at once
+		t.Fatalf("C20: a server started at now-offset = %d does not catch up", maxNoRotS)
 	}
 }
